@@ -177,10 +177,16 @@ def search(ctx, disagreements, proof_info):
         tr = [tuple(l) for l in d.trace]
         r = replay_with_monitor(inst, tr)
         if r is None:
-            # let the core finish what the trace started: extend with idle letters of the instance
-            ext = [inst.idle_letter(tr[-1])] * 80 if hasattr(inst, "idle_letter") else []
-            r = replay_with_monitor(inst, tr + ext) if ext else None
-            tr = tr + ext
+            # let the core finish what the trace started: extend with idle letters of the instance, then with the
+            # instance's scripted command sequences (e.g. I2C: READ with ACK immediately followed by READ)
+            exts = [[inst.idle_letter(tr[-1])] * 80] if hasattr(inst, "idle_letter") else []
+            if hasattr(inst, "probe_extensions"):
+                exts += inst.probe_extensions(tr[-1])
+            for ext in exts:
+                r = replay_with_monitor(inst, tr + ext)
+                if r:
+                    tr = tr + ext
+                    break
         if r:
             tr = shrink(inst, tr[:r[0] + 1])
             r2 = replay_with_monitor(inst, tr)
